@@ -509,6 +509,7 @@ type dispatchEntry struct {
 	Key    string
 	Target *types.Func
 	Pos    token.Pos
+	LitPos token.Pos // the row's value is a function literal written in the table
 }
 
 // dispatchTable extracts the string-keyed dispatch of root: rows of map
@@ -556,7 +557,11 @@ func dispatchTable(p *packages.Package, root *ast.FuncDecl) []dispatchEntry {
 				for _, el := range x.Elts {
 					if kv, ok := el.(*ast.KeyValueExpr); ok {
 						if k := stringLit(info, kv.Key); k != "" || isConstExpr(info, kv.Key) {
-							out = append(out, dispatchEntry{k, firstFunc(kv.Value), kv.Pos()})
+							if fl, isLit := kv.Value.(*ast.FuncLit); isLit {
+								out = append(out, dispatchEntry{Key: k, Pos: kv.Pos(), LitPos: fl.Pos()})
+								continue
+							}
+							out = append(out, dispatchEntry{Key: k, Target: firstFunc(kv.Value), Pos: kv.Pos()})
 						}
 					}
 				}
@@ -581,7 +586,7 @@ func dispatchTable(p *packages.Package, root *ast.FuncDecl) []dispatchEntry {
 					}
 					for _, e := range cc.List {
 						if isConstExpr(info, e) {
-							out = append(out, dispatchEntry{stringLit(info, e), target, cc.Pos()})
+							out = append(out, dispatchEntry{Key: stringLit(info, e), Target: target, Pos: cc.Pos()})
 						}
 					}
 				}
